@@ -661,6 +661,73 @@ func checkEventSwitch(p *Prog, r *Report, ru *Rule) {
 		})
 	}
 	if nil == call {
+		/* Or kept as ready-made lines in another field of the server
+		(an array of CLines one of which carries the help text), sent
+		element by element. */
+		holders := map[*types.Var]bool{}
+		for _, fn := range p.Funcs() {
+			eachInstr(fn, func(i ssa.Instruction) {
+				st, ok := i.(*ssa.Store)
+				if !ok {
+					return
+				}
+				if fv, _ := loadedField(stripConv(st.Val, false)); fv != helpF {
+					return
+				}
+				lf, base := fieldAddrOf(st.Addr)
+				if nil == lf || "Line" != lf.Name() {
+					return
+				}
+				ia, ok := base.(*ssa.IndexAddr)
+				if !ok {
+					return
+				}
+				switch arr := ia.X.(type) {
+				case *ssa.FieldAddr:
+					if hf, _ := fieldAddrOf(arr); nil != hf {
+						holders[hf] = true
+					}
+				case *ssa.Alloc:
+					/* A literal built aside and stored whole. */
+					for _, ref := range *arr.Referrers() {
+						ld, ok := ref.(*ssa.UnOp)
+						if !ok || token.MUL != ld.Op {
+							continue
+						}
+						for _, r2 := range *ld.Referrers() {
+							if st2, ok := r2.(*ssa.Store); ok && st2.Val == ssa.Value(ld) {
+								if hf, _ := fieldAddrOf(st2.Addr); nil != hf {
+									holders[hf] = true
+								}
+							}
+						}
+					}
+				}
+			})
+		}
+		eachInstr(w, func(i ssa.Instruction) {
+			snd, ok := i.(*ssa.Send)
+			if !ok {
+				return
+			}
+			ld, ok := snd.X.(*ssa.UnOp)
+			if !ok || token.MUL != ld.Op {
+				return
+			}
+			ia, ok := ld.X.(*ssa.IndexAddr)
+			if !ok {
+				return
+			}
+			x := ia.X
+			if sl, ok := x.(*ssa.Slice); ok {
+				x = sl.X
+			}
+			if hf, _ := fieldAddrOf(x); nil != hf && holders[hf] {
+				call = i
+			}
+		})
+	}
+	if nil == call {
 		ru.Bad("watchIOBEvents:rearm", posOf(ifi), "the callback help is not re-printed when a shell is gone")
 		return
 	}
